@@ -32,6 +32,17 @@ def gen_lib(rng, gen):
     members.append(('fix', 'deep40', False, 'h', None, ('call', ('field', ('self',), 'deep'), [('p', N(40))], False)))
     members.append(('fix', 'shared', False, 'h', None, ('std', 'trace', [('str', 'shared'), gen.gen('any', {}, 2, True)])))
     members.append(('fix', 'id', False, 'h', [('x', None)], V('x')))
+    # deferred callback applications (one pending call per element) that fail for some elements / at some depths
+    cb = ('func', [('i', None)], ('if', ('binary', 'eq', V('i'), N(rng.randrange(0, 4))), ('error', ('str', 'callback failed')),
+                                  ('call', ('field', ('self',), 'deep'), [('p', ('binary', 'mul', V('i'), N(rng.choice([5, 30, 70]))))], False)))
+    members.append(('fix', 'mapped', False, 'h', None, ('std', 'map', [cb, ('array', [N(0), N(1), N(2), N(3)])])))
+    members.append(('fix', 'made', False, 'h', None, ('std', 'makeArray', [N(4), cb])))
+    # asserts inherited from a super layer; the extension breaks them
+    members.append(('fix', 'base', False, 'h', None, ('object', [('assert', ('binary', 'gt', ('field', ('self',), 'x'), N(0)), ('str', 'base assertion')),
+                                                                 ('fix', 'x', False, 'd', None, N(1))])))
+    members.append(('fix', 'bad', False, 'h', None, ('binary', 'add', ('field', ('self',), 'base'), ('object', [('fix', 'x', False, 'd', None, N(-1))]))))
+    members.append(('fix', 'bad2', False, 'h', None, ('binary', 'add', ('binary', 'add', ('field', ('self',), 'base'), ('object', [('fix', 'y', False, 'd', None, N(2))])),
+                                                      ('object', [('fix', 'x', False, 'd', None, N(0))]))))
     return ('object', members)
 
 
@@ -39,8 +50,21 @@ def gen_source(rng, gen):
     """A request source: uses library values; some fail (explicit error, deep recursion, library error)."""
     l = lib_ref(rng)
     k = rng.random()
-    if k < 0.15:
+    if k < 0.07:
         return ('array', [('field', l, 'n'), ('field', lib_ref(rng), 'arr'), ('field', l, 'shared')])
+    if k < 0.15:
+        which = rng.random()
+        if which < 0.3:
+            return ('index', ('field', l, rng.choice(['mapped', 'made'])), N(rng.randrange(0, 4)))
+        if which < 0.45:
+            return ('field', l, rng.choice(['mapped', 'made']))
+        if which < 0.6:
+            return ('std', 'length', [('field', l, rng.choice(['mapped', 'made']))])
+        if which < 0.8:
+            return ('field', ('field', l, rng.choice(['bad', 'bad2', 'base'])), 'x')
+        if which < 0.9:
+            return ('field', l, rng.choice(['bad', 'bad2', 'base']))
+        return ('binary', 'add', ('field', l, rng.choice(['bad', 'bad2'])), ('object', [('fix', 'x', False, 'd', None, N(rng.choice([-5, 5])))]))
     if k < 0.25:
         return ('field', l, 'boom')
     if k < 0.40:
@@ -61,6 +85,11 @@ def gen_source(rng, gen):
         # a failing object assertion followed by another failure: re-evaluation must repeat the first one
         o = ('object', [('fix', 'a', False, 'd', None, N(1)),
                         ('assert', ('binary', 'ge', ('field', ('self',), 'a'), N(2)), ('str', 'object assertion'))])
+        if rng.random() < 0.5:
+            # the assertion comes from a super layer, the extension has none of its own
+            o = ('binary', 'add', ('object', [('fix', 'a', False, 'd', None, N(5)),
+                                              ('assert', ('binary', 'ge', ('field', ('self',), 'a'), N(2)), ('str', 'object assertion'))]),
+                 ('object', [('fix', 'a', False, 'd', None, N(1))]))
         return ('local', [('o', None, o)], ('array', [('field', V('o'), 'a'), ('error', ('str', 'second failure'))]))
     env = {}
     return ('local', [('q', None, l)], gen.gen('any', {'q': 'obj'}, 3, False))
